@@ -649,7 +649,7 @@ def model_value(model, term):
 # the per-path context
 # --------------------------------------------------------------------------
 class Obligation(object):
-    __slots__ = ("label", "status", "secs", "how", "model_vals", "path_index", "detail")
+    __slots__ = ("label", "status", "secs", "how", "model_vals", "path_index", "detail", "alt_vals")
 
     def __init__(self, label, status, secs, how, model_vals=None, detail=None):
         self.label = label
@@ -659,6 +659,7 @@ class Obligation(object):
         self.model_vals = model_vals
         self.detail = detail
         self.path_index = None
+        self.alt_vals = []
 
 
 class Ctx(object):
@@ -945,6 +946,26 @@ class Ctx(object):
                 pass
             mv = self._model_vals(v.model, watch)
         ob = Obligation(label, v.status, v.secs, v.how, mv)
+        if v.status == "sat" and self.ex.alt_budget.setdefault(label, 3) > 0:
+            self.ex.alt_budget[label] -= 1
+            # a second counter-model biased to LARGE magnitudes (greedy, bounded effort): differences that are tied
+            # to a relative tolerance or to accumulated growth are invisible to floats at the tiny values a solver
+            # likes to pick
+            try:
+                nums = [_real(z) for z in self.symbols.values() if z.sort() != z3.BoolSort()][:16]
+                sv = _mk_solver(2000)
+                sv.add(*(fmls + ax))
+                kept = []
+                for r in nums:
+                    lit = z3.Or(r >= 100000, r <= -100000)
+                    if zcheck(sv, *(kept + [lit]), ms=500) == z3.sat:
+                        kept.append(lit)
+                if kept:
+                    vb = solve(fmls + ax + kept, timeout_ms=3000)
+                    if vb.status == "sat":
+                        ob.alt_vals.append(self._model_vals(vb.model, watch))
+            except z3.Z3Exception:
+                pass
         self.obligations.append(ob)
         if self.ex.dump_queries is not None:
             self.ex.dump_queries.append((label, fmls + ax, v.status))
@@ -1116,6 +1137,7 @@ class Explorer(object):
         self.paths = []
         self.unknown_feasibility = 0
         self.budget_exhausted = False
+        self.alt_budget = {}
         self.reach = {}
         self.witnesses = {}
         self.dump_queries = dump_queries
